@@ -81,7 +81,9 @@ ASSUMPTIONS = [
 
 ATTRS = ["color", "k", "role", "tags"]
 # "1"/"2" next to 1/2: an allowed value matches by equality, not by its printed form
-SCALARS = ["red", "blue", 1, 2, "1", "2"]
+# falsy values (0, False, "", 0.0) are values like any other: an item holding one of them
+# under an attribute matches a criterion that allows it
+SCALARS = ["red", "blue", 1, 2, "1", "2", 0, "", False]
 # list-valued metadata is matched by a list-valued allowed entry ({"tags": [["a", "b"]]})
 LISTS = [["a", "b"], ["b", "a"], ["a"]]
 VALUES = SCALARS + LISTS
@@ -996,6 +998,19 @@ def svh_mp_cases(draw, tier):
     hyperedges with pairwise different weights on disjoint node groups plus light ones, so that
     the p-values differ from row to row (results handed back in another order, or computed from
     another row's parameters, show)."""
+    if draw(st.integers(0, 3)) == 0:
+        # a big size class (64..80 hyperedges of size 2 on 14 nodes, the count not a multiple of
+        # the pool size): results of a chunked parallel map must still cover every hyperedge
+        n = 14
+        pairs = [[a, b] for a in range(n) for b in range(a + 1, n)]
+        m = draw(st.sampled_from([65, 70, 77, 83]))
+        chosen = draw(st.permutations(pairs))[:m]
+        edges = [{"ns": list(p_), "w": 1 + (3 * j) % 7 + (20 if j % 11 == 0 else 0)}
+                 for j, p_ in enumerate(chosen)]
+        return {"kind": "range", "labels": list(range(n)), "weighted": True, "edges": edges,
+                "max_order": draw(st.sampled_from([2, 3, 10])), "mp": True, "planted": True,
+                "omit_alpha": draw(st.booleans()), "omit_defaults": draw(st.booleans()),
+                "big_class": True}
     U = draw(universes(min_size=6, max_size=8, kinds=("ints", "strs", "range")))
     n = len(U["labels"])
     s_ = draw(st.sampled_from([2, 2, 3]))
@@ -1028,7 +1043,9 @@ def check_svh_mp(case, ctx):
     distinct = len(set(exact)) == len(exact)
     if distinct:
         ctx.label("pairwise_distinct_pvalues")
-    ctx.nontrivial(distinct and len(exact) >= 4)
+    if case.get("big_class"):
+        ctx.label("size_class_of_more_than_64_hyperedges")
+    ctx.nontrivial((distinct or case.get("big_class")) and len(exact) >= 4)
 
 
 CLAUSES = [
@@ -1054,6 +1071,6 @@ CLAUSES = [
     Clause("svh_validated", svh_cases, check_svh_validated, quick=300, thorough=1200,
            shards_quick=4,
            rule="a size class with >= 3 hyperedges, some validated and some not"),
-    Clause("svh_mp", svh_mp_cases, check_svh_mp, quick=4, thorough=6, shards_quick=1,
+    Clause("svh_mp", svh_mp_cases, check_svh_mp, quick=6, thorough=8, shards_quick=1,
            rule="mp=True, one size class of >= 4 hyperedges whose exact p-values differ pairwise"),
 ]
